@@ -189,10 +189,16 @@ impl Mode {
 
     /// Convenience function to push a value onto the stack
     pub fn push_value(&self, block: &mut Block, value: Expression) -> Result<(), Error> {
-        match self {
-            Mode::X86 => block.assign(self.sp(), Expr::sub(self.sp().into(), expr_const(4, 32))?),
-            Mode::Amd64 => block.assign(self.sp(), Expr::sub(self.sp().into(), expr_const(8, 64))?),
+        // a 16-bit operand (operand-size prefix) occupies two bytes of stack
+        let slot = if value.bits() == 16 {
+            2
+        } else {
+            (self.bits() / 8) as u64
         };
+        block.assign(
+            self.sp(),
+            Expr::sub(self.sp().into(), expr_const(slot, self.bits()))?,
+        );
 
         block.store(self.sp().into(), value);
         Ok(())
